@@ -54,6 +54,15 @@ def _match(p, n, b):
             return isinstance(b[k], ast.Name) and b[k].id == n.id
         b[k] = n
         return True
+    # a metavariable standing alone as a statement matches any single statement
+    if isinstance(p, ast.Expr) and isinstance(p.value, ast.Name) and p.value.id.startswith(_MV) and isinstance(n, ast.stmt):
+        k = p.value.id[len(_MV):]
+        if k.startswith("_"):
+            return True
+        if k in b:
+            return _eq(b[k], n)
+        b[k] = n
+        return True
     if isinstance(p, ast.arg) and p.arg.startswith(_NV):
         if not isinstance(n, ast.arg):
             return False
@@ -72,7 +81,14 @@ def _match(p, n, b):
                 return False
         return True
     if isinstance(p, list):
-        if not isinstance(n, list) or len(p) != len(n):
+        if not isinstance(n, list):
+            return False
+        # `$_rest` as the last statement of a block matches any (possibly empty) remainder
+        if p and isinstance(p[-1], ast.Expr) and isinstance(p[-1].value, ast.Name) and p[-1].value.id == _MV + "_rest":
+            if len(n) < len(p) - 1:
+                return False
+            return all(_match(x, y, b) for x, y in zip(p[:-1], n))
+        if len(p) != len(n):
             return False
         return all(_match(x, y, b) for x, y in zip(p, n))
     return p == n
